@@ -236,7 +236,17 @@ def render_fields(v, sp, indent, is_union=False):
     return '(\n' + body + indent + ')'
 
 
+TYPE_WRAP = None   # optional hook: fn(decl_text, t) -> text (used by C19 to put the derive site into a hostile module)
+
+
 def render_type(t, sp=None):
+    s = _render_type(t, sp)
+    if TYPE_WRAP is not None:
+        return TYPE_WRAP(s, t)
+    return s
+
+
+def _render_type(t, sp=None):
     sp = sp or Spelling()
     out = '#[derive(Educe)]\n'
     items = []
